@@ -458,7 +458,8 @@ class DecayMegacomplexMatrix(Contract):
             mc = DecayMegacomplex(label="mc", k_matrix=kms)
             jv = [S.real(f"j_{i}") for i in range(n)]
             for v in jv:
-                S.require(L.gt(v, 0), "initial concentrations positive")
+                S.require(L.ge(v, 0), "initial concentrations non-negative")
+            S.require(L.gt(L.sum(jv), 0), "normalised part has a positive total")
             # compartment order is the one of the initial concentration, not of the K-matrix
             order = list(range(n)) if kind != "decay-chain-initial-order" else list(reversed(range(n)))
             ic = InitialConcentration(label="ic", compartments=[names[i] for i in order] + ["unused"], parameters=[Parameter(label=f"j.{i+1}", value=jv[i]) for i in order] + [Parameter(label="j.u", value=S.real("j_u"))], exclude_from_normalize=["unused"])
